@@ -69,12 +69,18 @@ fn want(m: &Mru) -> Option<Vec<[u8; 32]>> {
 /// op: (doc 0|1|2=unknown, peer)
 type Op = (u8, u8);
 
+/// Family R runs with the machine's own clock (the hook clock is the default elsewhere so that
+/// registration order and time order agree exactly; here the store has to get that right by
+/// itself, across a reopen in particular).
+static REAL_CLOCK: std::sync::atomic::AtomicBool = std::sync::atomic::AtomicBool::new(false);
+
 fn run_ops(
     pre: &[Op],
     ops: &[Op],
     file_reopen_at: Option<usize>,
 ) -> (Vec<(&'static str, String)>, String) {
-    iroh_docs::verif::set_clock_nanos(Some(1_000_000));
+    let real_clock = REAL_CLOCK.load(std::sync::atomic::Ordering::SeqCst);
+    iroh_docs::verif::set_clock_nanos(if real_clock { None } else { Some(1_000_000) });
     let mut bad = vec![];
     let dir = file_reopen_at.map(|_| scratch_dir());
     let path = dir.as_ref().map(|d| d.path().join("docs.redb"));
@@ -98,6 +104,10 @@ fn run_ops(
                 let _ = get(&mut sut, &doc(dd));
             }
             continue;
+        }
+        if real_clock {
+            // two registrations are never made within the same instant of the real clock
+            std::thread::sleep(std::time::Duration::from_micros(50));
         }
         let res = sut.store.register_useful_peer(doc(*d), peer(*p));
         if *d < 2 {
@@ -177,8 +187,12 @@ fn record(
     if nt {
         report.nontrivial += 1;
     }
-    let case = json!({"pre": pre, "ops": ops, "reopen_at": reopen});
-    match catch(|| run_ops(pre, ops, reopen)) {
+    let real_clock = family == "R";
+    let case = json!({"pre": pre, "ops": ops, "reopen_at": reopen, "real_clock": real_clock});
+    REAL_CLOCK.store(real_clock, std::sync::atomic::Ordering::SeqCst);
+    let result = catch(|| run_ops(pre, ops, reopen));
+    REAL_CLOCK.store(false, std::sync::atomic::Ordering::SeqCst);
+    match result {
         Err(p) => report.violation(
             "no_panic",
             json!({"family": family}),
@@ -411,6 +425,22 @@ fn run(ctx: &Ctx, report: &mut Report) {
             record(report, "C", &pre, &ops, None, ordinal);
         });
     }
+    // (R) the machine's own clock, file-backed, reopen at every prefix (the store that is opened
+    // again is younger than the registrations it finds)
+    for depth in 1..=(if quick { 3 } else { 4 }) {
+        for_each_sequence(7, depth, |seq| {
+            for at in 1..=depth {
+                ordinal += 1;
+                if !ctx.mine(ordinal) {
+                    continue;
+                }
+                let ops: Vec<Op> = seq.iter().map(|&p| (0u8, p as u8)).collect();
+                for pre in [(2..7u8).map(|p| (0u8, p)).collect::<Vec<Op>>(), (2..4u8).map(|p| (0u8, p)).collect()] {
+                    record(report, "R", &pre, &ops, Some(pre.len() + at), ordinal);
+                }
+            }
+        });
+    }
     // (D) file-backed, reopen at every prefix
     for depth in 1..=(if quick { 4 } else { 5 }) {
         for_each_sequence(7, depth, |seq| {
@@ -468,6 +498,7 @@ fn replay(case: &Value) -> anyhow::Result<(bool, String)> {
     let pre: Vec<Op> = serde_json::from_value(case["pre"].clone())?;
     let ops: Vec<Op> = serde_json::from_value(case["ops"].clone())?;
     let reopen: Option<usize> = serde_json::from_value(case["reopen_at"].clone())?;
+    REAL_CLOCK.store(case["real_clock"].as_bool().unwrap_or(false), std::sync::atomic::Ordering::SeqCst);
     match catch(|| run_ops(&pre, &ops, reopen)) {
         Err(p) => Ok((true, format!("panic: {p}"))),
         Ok((bad, rendering)) => {
